@@ -81,6 +81,48 @@ func VH_C07_Execute() {
 	}
 }
 
+// C07-E1s: Engine.Execute reaching a signature opcode with a non-empty "signature" (so that the
+// interpreter copies and serialises the transaction it was given) on transactions in any state
+// the public API can leave them in: inputs that were never given a previous txid (PreviousTxIDAdd
+// refuses anything but 32 bytes, so an input has a 32-byte id or none), outputs without a locking script.
+func VH_C07_ExecuteSig() {
+	u := bscript.Script{bscript.Op1, bscript.Op1}
+	l := bscript.Script{bscript.OpCHECKSIG}
+	switch vnondetLen("sig-kind", 0, 3) {
+	case 3:
+		l = bscript.Script{bscript.OpCHECKSIG, bscript.OpNOT} // a failed check of a junk signature, inverted: success without strict encoding
+	case 1:
+		l = bscript.Script{bscript.OpCHECKSIGVERIFY}
+	case 2:
+		u = bscript.Script{bscript.Op0, bscript.Op1, bscript.Op1}
+		l = bscript.Script{bscript.Op1, bscript.Op1, bscript.OpCHECKMULTISIG}
+	}
+	flags := vC07FlagSets[vnondetLen("flagset", 0, len(vC07FlagSets)-1)]
+	tx := &bt.Tx{Version: vnondetU32("version"), LockTime: vnondetU32("locktime")}
+	n := vnondetLen("nin", 1, 2)
+	for i := 0; i < n; i++ {
+		in := &bt.Input{PreviousTxOutIndex: vnondetU32("vout"), SequenceNumber: vnondetU32("seq")}
+		if vnondetBool("has-txid") {
+			_ = in.PreviousTxIDAdd(vnondetBytes("txid", 32, 32))
+		}
+		tx.Inputs = append(tx.Inputs, in)
+	}
+	for i, m := 0, vnondetLen("nout", 0, 2); i < m; i++ {
+		o := &bt.Output{Satoshis: vnondetU64("outsats")}
+		if vnondetBool("out-has-script") {
+			o.LockingScript = &bscript.Script{bscript.Op1}
+		}
+		tx.Outputs = append(tx.Outputs, o)
+	}
+	prev := &bt.Output{Satoshis: vnondetU64("value"), LockingScript: &l}
+	err := NewEngine().Execute(WithScripts(&l, &u), WithFlags(flags), WithTx(tx, vnondetLen("inputidx", 0, n-1), prev))
+	if err == nil {
+		vreach("execute-sig-ok")
+	} else {
+		vreach("execute-sig-error")
+	}
+}
+
 var vC07FlagSets = []scriptflag.Flag{0, scriptflag.UTXOAfterGenesis, scriptflag.Bip16 | scriptflag.VerifyCleanStack | scriptflag.VerifyMinimalData | scriptflag.VerifyMinimalIf | scriptflag.DiscourageUpgradableNops | scriptflag.VerifyCheckLockTimeVerify | scriptflag.VerifyCheckSequenceVerify,
 		scriptflag.UTXOAfterGenesis | scriptflag.Bip16 | scriptflag.VerifyMinimalData | scriptflag.VerifySigPushOnly | scriptflag.EnableSighashForkID | scriptflag.VerifyCheckLockTimeVerify}
 
